@@ -283,7 +283,9 @@ def instances(tier):
             if q and len(encs) == 2 and ti != si % 4:
                 continue
             for L in Ls:
-                if len(encs) == 3 and L not in (0, 2, 5, 7):
+                if len(encs) == 3 and L not in (2, 5):
+                    continue
+                if len(encs) == 3 and sum(1 for e in encs if e in ("mask", "base64", "base64url")) == 3 and L != 2:
                     continue
                 if sum(1 for e in encs if e.startswith("base64")) >= 2 and L > 5:
                     continue
